@@ -2,7 +2,7 @@
    The classification theorems are about the table GENERATED from /repo/characterize.go. *)
 From Coq Require Import List Arith Bool.
 Import ListNotations.
-From NJ Require Import Base Registry Classify Select Machine ClassifyProofs OnceLemmas.
+From NJ Require Import Base Registry Classify Select Reorder Machine Spec Bind ClassifyProofs OnceLemmas SpecLemmas WfProofs EndToEnd.
 
 (* Only cacheable functions whose inputs are all static are hoisted; NotCacheable wins. *)
 Theorem C06_static_requires : forall te d cc s,
@@ -61,3 +61,17 @@ Theorem C06_first_run_sets_done : forall W beh_fn beh_wrap b s, ss_ok W s = true
   (bd_init b = None -> ss_done W (fst (run_step W beh_fn beh_wrap b s DoInvoke)) = true).
 Proof. exact first_run_sets_done. Qed.
 Print Assumptions C06_first_run_sets_done.
+
+(* End to end (cases without Reorder annotation and init function, nothing validated on the case):
+   in a session of k+1 invocations of a bound chain the included static injectors are logged once,
+   in the first invocation, before any per-invocation provider; every later invocation logs the
+   invoke function and the per-invocation providers only. *)
+Theorem C06_static_part_runs_once_per_bound_chain : forall (c : bcase) (pl : plan) (b : bound),
+  plain_case c = true -> bc_init c = None -> bind_chain c = Ok (pl, b) ->
+  exists sp, splan_of (bc_te c) pl = Some sp /\
+    forall (ncalls : nat -> nat) (k : nat) (w0 : list nat),
+      ss_w (list nat) (fst (run_session (list nat) o_fn (o_wrap ncalls) b (mkSess (list nat) w0 (bd_base0 b) false true) (repeat DoInvoke (S k))))
+      = w0 ++ [r_pid (sp_invoke sp)] ++ static_log (sp_static sp) ++ expected ncalls (sp_run sp) ++
+        flat_map (fun _ => r_pid (sp_invoke sp) :: expected ncalls (sp_run sp)) (seq 0 k).
+Proof. exact plain_chain_static_once. Qed.
+Print Assumptions C06_static_part_runs_once_per_bound_chain.
